@@ -58,6 +58,8 @@ pub enum Ty {
     Map(Box<Ty>),
     /// darling::util::PathList — a fail-fast collection of bare paths
     PathList,
+    /// Vec<u8>: an array expression of unsigned integers (`x = [1, 2, "3"]` or a quoted array), fail-fast
+    Bytes,
     /// a derived FromMeta receiver (struct or enum), by id
     Recv(usize),
     BoxRecv(usize),
@@ -191,6 +193,8 @@ pub struct Magic {
     pub field_recv: Option<usize>,
     /// `#[darling(with = ..)]` on `data`
     pub with: bool,
+    /// `generics` typed as darling's own `ast::Generics<ast::GenericParam>` instead of `syn::Generics`
+    pub own_generics: bool,
 }
 
 #[derive(Clone, Debug)]
@@ -380,6 +384,7 @@ impl<'a> Gen<'a> {
             0 => Ty::Opt(Box::new(Ty::Sc(self.scalar()))),
             1 => Ty::Map(Box::new(Ty::Sc(*self.rng.pick(&[Sc::Str, Sc::U8, Sc::Bool])))),
             2 if self.rng.chance(1, 3) => Ty::PathList,
+            3 if self.rng.chance(1, 3) => Ty::Bytes,
             _ => Ty::Sc(self.scalar()),
         }
     }
@@ -587,7 +592,8 @@ impl<'a> Gen<'a> {
                     if self.rng.chance(1, 7) {
                         v.skip = true;
                     }
-                    if matches!(v.body, VBody::Unit) && !have_word && !v.skip && self.rng.chance(1, 6) {
+                    // (a skipped variant may still say `word`: skip wins, the variant is never produced)
+                    if matches!(v.body, VBody::Unit) && !have_word && (!v.skip || self.rng.chance(1, 2)) && self.rng.chance(1, 6) {
                         v.word = true;
                         have_word = true;
                     }
@@ -773,9 +779,13 @@ impl<'a> Gen<'a> {
                     variant_recv: None,
                     field_recv: None,
                     with: false,
+                    own_generics: false,
                 };
                 if *k == MagicKind::Data && self.rng.chance(1, 4) {
                     m.with = true;
+                }
+                if *k == MagicKind::Generics && self.rng.chance(2, 5) {
+                    m.own_generics = true;
                 }
                 if matches!(k, MagicKind::Data | MagicKind::Fields) && self.profile.body_recv && self.rng.chance(2, 3) {
                     if *k == MagicKind::Data {
@@ -817,6 +827,7 @@ impl<'a> Gen<'a> {
                 variant_recv: None,
                 field_recv: None,
                 with: false,
+                own_generics: false,
             }],
             shape: Shape::Struct(vec![]),
             generics: String::new(),
@@ -859,6 +870,7 @@ impl<'a> Gen<'a> {
                 variant_recv: None,
                 field_recv: Some(f),
                 with: false,
+                own_generics: false,
             });
         }
         if tr == Trait::Field {
@@ -868,6 +880,7 @@ impl<'a> Gen<'a> {
                 variant_recv: None,
                 field_recv: None,
                 with: false,
+                own_generics: false,
             });
         }
         self.recvs[id] = r;
